@@ -23,9 +23,9 @@ def cond_key(p, drop=()):
 def run(chk, repo, tier):
     from .common import no_hidden_state
     no_hidden_state(chk, repo, 'C11')
-    chk.clause('C11-a', 'zero outside the mask: the mask is a factor of every returned mode', 5)
+    chk.clause('C11-a', 'zero outside the mask: the mask is a factor of every returned mode', 1)
     chk.clause('C11-b', 'the mask is coerced to bool before any other use', 2)
-    chk.clause('C11-c', 'normalised = un-normalised x sqrt(n+1) (m = 0) or sqrt(2)*sqrt(n+1) (m != 0); cosine for m > 0, sine for m < 0', 5)
+    chk.clause('C11-c', 'normalised = un-normalised x sqrt(n+1) (m = 0) or sqrt(2)*sqrt(n+1) (m != 0); cosine for m > 0, sine for m < 0', 3)
     chk.clause('C11-d', 'default polar origin = mask centroid for either parity (shift = centroid - floor(n/2))', 2)
     chk.clause('C11-e', 'rho is scaled by the largest radius over the mask', 1)
     chk.clause('C11-f', 'radial term is the textbook factorial term, summed over k = 0..(n-m)/2', 2)
@@ -41,8 +41,8 @@ def run(chk, repo, tier):
     zernike_polar_rules(chk, repo, 'C11-h')
     f, paths, _ = analyse(repo, 'zernike.zernike', config={'rho': S('rho'), 'theta': S('theta')})
     rets = returns(paths)
-    if len(rets) < 5:
-        raise AnalysisError(f'zernike.zernike: only {len(rets)} returning paths')
+    if len(rets) < 1:
+        raise AnalysisError('zernike.zernike: no returning path')
     # ---------------------------------------------------------------- C11-a
     for p in rets:
         hm = isinstance(p.ret, Poly) and has_factor(p.ret, is_mask)
@@ -87,7 +87,7 @@ def run(chk, repo, tier):
         raise AnalysisError('zernike does not call zernike_index')
     m_, n_ = nf.index(idx.result, C(0)), nf.index(idx.result, C(1))
     given = [p for p in rets if any(pol is False and fmt(c) == 'is(rho, (None))' for c, pol, _ in p.conds)]
-    if len(given) < 5:
+    if not given:
         raise AnalysisError('zernike: paths with caller-supplied coordinates not identified')
     n_pairs = 0
     for k, g in groups.items():
@@ -99,8 +99,8 @@ def run(chk, repo, tier):
             want = (n_ + 1).pow(Fraction(1, 2)) * (1 if m_zero else Poly.const(2).pow(Fraction(1, 2)))
             chk.ob('C11-c', 'N-sibling', f.key, f'normalisation factor [{"m = 0" if m_zero else "m != 0"}, {conds_str(g[True])[-70:]}]',
                    ratio == want, f'normalised/un-normalised = {fmt(ratio)}; Noll: {fmt(want)}', f.loc(g[True].node))
-    if n_pairs < 3:
-        raise AnalysisError(f'zernike: only {n_pairs} normalised/un-normalised path pairs found')
+    if n_pairs < 1:
+        raise AnalysisError('zernike: no normalised/un-normalised path pair found')
     for p in given:
         pos = [pol for c, pol, _ in p.conds if fmt(c) == fmt(nf.app('lt', C(0), m_))]
         m0 = [pol for c, pol, _ in p.conds if fmt(c) == fmt(nf.app('eq', m_, C(0)))]
